@@ -372,6 +372,33 @@ pub struct Session {
 }
 
 impl Session {
+    /// The delivery-ids in `first..=last` (serial numbers) that the session knows for `role`, in
+    /// order. The work is bounded by the number of known deliveries, not by the width of the
+    /// range that the remote peer names.
+    fn known_delivery_ids(
+        &self,
+        role: &Role,
+        first: DeliveryNumber,
+        last: DeliveryNumber,
+    ) -> Vec<DeliveryNumber> {
+        let span = last.wrapping_sub(first);
+        if (span as usize) < self.delivery_tag_by_id.len() {
+            (0..=span)
+                .map(|offset| first.wrapping_add(offset))
+                .filter(|id| self.delivery_tag_by_id.contains_key(&(role.clone(), *id)))
+                .collect()
+        } else {
+            let mut ids: Vec<DeliveryNumber> = self
+                .delivery_tag_by_id
+                .keys()
+                .filter(|(r, id)| r == role && id.wrapping_sub(first) <= span)
+                .map(|(_, id)| *id)
+                .collect();
+            ids.sort_by_key(|id| id.wrapping_sub(first));
+            ids
+        }
+    }
+
     /// Creates a builder for [`Session`]
     pub fn builder() -> builder::Builder {
         builder::Builder::new()
@@ -831,7 +858,7 @@ impl endpoint::Session for Session {
         // in different mode. This counts the largest sections that can be echoed back together
         if disposition.settled {
             // If it is alrea
-            for delivery_id in first..=last {
+            for delivery_id in self.known_delivery_ids(&disposition.role, first, last) {
                 let key = (disposition.role.clone(), delivery_id);
                 if let Some((handle, delivery_tag)) = self.delivery_tag_by_id.remove(&key) {
                     if let Some(link_handle) = self.link_by_input_handle.get_mut(&handle) {
@@ -848,7 +875,7 @@ impl endpoint::Session for Session {
             Ok(None)
         } else {
             let mut delivery_ids = Vec::new();
-            for delivery_id in first..=last {
+            for delivery_id in self.known_delivery_ids(&disposition.role, first, last) {
                 let key = (disposition.role.clone(), delivery_id);
                 if let Some((handle, delivery_tag)) = self.delivery_tag_by_id.get(&key) {
                     if let Some(link_handle) = self.link_by_input_handle.get_mut(handle) {
